@@ -143,6 +143,55 @@ def _canon_partition(xs):
   return out
 
 
+def _rint_half_even(fr):
+  import math
+  f = math.floor(fr)
+  d = fr - f
+  if d * 2 < 1:
+    return f
+  if d * 2 > 1:
+    return f + 1
+  return f if f % 2 == 0 else f + 1
+
+
+def _fixed_params(cl, bits):
+  from fractions import Fraction as F
+  if bits == 16:
+    return F(1, 32768), 0
+  return (F(1, 256), -128) if cl == "SL" else (F(1, 128), 0)
+
+
+def annot_key(p):
+  """Parameter term -> key of the ANNOTATION it produces in the flatbuffer (dtype, scale, zero point).
+
+  The library's parameter equality also compares the `symmetric` flag and the quantized data, which the annotation does
+  not carry: a bias term drops its buffer; parameters re-derived from the overwritten range of a fixed-range output are
+  evaluated exactly (TFLite-spec formulas on the fixed range), since e.g. tanh's 8-bit range under a symmetric 8-bit
+  config gives (1/128, 0) again although the parameter objects differ.
+  """
+  from fractions import Fraction as F
+  if p[0] == "B":
+    return [p[0]] + p[2:]
+  if p[0] == "FIXP":
+    sc, zp = _fixed_params(p[1], p[2])
+    return ["num", p[2], str(sc), zp]
+  if p[0] == "P" and p[1][0] == "fix":
+    cl, a0, a = p[1][1], p[1][2], p[2]
+    bits0 = 16 if a0 == "a16" else 8
+    sc0, zp0 = _fixed_params(cl, bits0)
+    qmin0, qmax0 = -(2 ** (bits0 - 1)), 2 ** (bits0 - 1) - 1
+    mx = (qmax0 - zp0) * sc0
+    mn = -mx if a0 in ("a8s", "a16") else (qmin0 - zp0) * sc0
+    bits = 16 if a == "a16" else 8
+    qmin, qmax = -(2 ** (bits - 1)), 2 ** (bits - 1) - 1
+    if a in ("a8s", "a16"):
+      return ["num", bits, str(max(abs(mn), abs(mx)) / qmax), 0]
+    bmax, bmin = max(mx, F(0)), min(mn, F(0))
+    sc = (bmax - bmin) / (qmax - qmin)
+    return ["num", bits, str(sc), _rint_half_even(qmin - bmin / sc)]
+  return p
+
+
 def spec_name(si, term, nsub):
   return synth.tname(si, term[0], nsub) + "".join(term[1:])
 
@@ -178,7 +227,7 @@ def compare(dump, impl, in_proj=None, out_proj=None):
     if snames != O["names"]:
       diffs.append("sub %d names: spec %s impl %s" % (si, snames, O["names"]))
     # annotation equality: the bias term carries its buffer (data identity), the annotation does not
-    spec_pars += [[p[0]] + p[2:] if p[0] == "B" else p for p in S["par"]]
+    spec_pars += [annot_key(p) for p in S["par"]]
     impl_pars += [("c", c) if c else ("none",) for c in O["pc"]]
   if len(spec_pars) == len(impl_pars) and _canon_partition(spec_pars) != _canon_partition(impl_pars):
     diffs.append("parameter classes: spec %s impl %s" % (_canon_partition(spec_pars), _canon_partition(impl_pars)))
